@@ -377,7 +377,9 @@ class XlaWalker(Walker):
             self.seen_at.setdefault(t.name, ("const", t.name))
             if typ == "XlaOp":
                 raise TypeError(f"{t.name} is an XlaOp, not a compile-time constant")
-            return self.ceval(ex, dt)
+            v = self.ceval(ex, dt)
+            # 'FloatType constant_0 = 0;' is a floating-point variable: its uses are not int literals
+            return dt(v) if type(v) is int and typ in ("FloatType", "float", "double", "T") else v
         if isinstance(t, Node):
             a = [self.ceval(o, dt) for o in t.operands]
             with numpy.errstate(all="ignore"):
